@@ -286,26 +286,70 @@ class LifecycleToy(Slice):
                 ls.insert(pos, "BRZ nowhere")
                 texts[k] = "\n".join(ls)
         ops = [[5, t] for t in texts] + [0] * rng.randrange(0, 10) + [[4, 500]] + [rng.choice([0, [4, 500]]) for _ in range(rng.randrange(0, 3))]
-        return {"ops": ops}
+        size = None
+        if rng.random() < 0.3:
+            # a small memory: operands / branch targets / the end of the program may lie outside it, so runs can FAULT
+            size = rng.choice([8, 12, 16])
+            small = []
+            for _ in range(rng.randrange(1, 6)):
+                if rng.random() < 0.6:
+                    mn = rng.choice(["LDA", "ADD", "STO", "BRZ", "SUB"])
+                    tgt = rng.choice([0, 1, size - 1, size, size + 3, 100, 4095])
+                    if mn == "BRZ" and tgt <= len(small):
+                        tgt = rng.choice([size - 1, size, 100])       # forward only: every run terminates
+                    if mn == "STO" and tgt < 6:
+                        tgt = size - 1                                # no self-modification into a backward branch
+                    small.append(f"{mn} {tgt}")
+                else:
+                    small.append(rng.choice(["INC", "DEC", "NOP", "ZRO"]))
+            texts = ["\n".join(small)] + ([gen_toy_text(rng)] if rng.random() < 0.3 else [])
+            ops = [[5, t] for t in texts] + [0] * rng.randrange(0, 6) + [[4, 500]] + [rng.choice([0, [4, 500]]) for _ in range(rng.randrange(0, 3))]
+        if rng.random() < 0.35:
+            # load / step interleavings: whole steps, half steps and single cycles BEFORE a further load (a reload in the
+            # middle of an instruction included)
+            ops = []
+            for t in texts:
+                ops.append([5, t])
+                for _ in range(rng.randrange(0, 5)):
+                    ops.append(rng.choice([0, 0, 1, 2, 3, 3]))
+            ops += [rng.choice([0, 3, [4, 500]]) for _ in range(rng.randrange(0, 4))]
+        return {"ops": ops, "size": size}
 
     def run(self, case, model):
         from architecture_simulator.simulation.toy_simulation import ToySimulation
         findings, cl = [], set()
-        sim = ToySimulation()
+        size = case.get("size")
+        sim = ToySimulation(unified_memory_size=size)
         it = [[[], T.obs_toy(sim, False)]]
         mops = []
         steps = 0
+        tainted = False
         for op in case["ops"]:
+            is_load = isinstance(op, list) and op[0] == 5
+            if tainted and not is_load:
+                continue          # after a FAILED load the state is partial (outside the model): nothing is run until the next load
             before = T.obs_toy(sim, True)
             was_done = sim.is_done()
-            if isinstance(op, list) and op[0] == 5:
+            if is_load:
                 from props.c19 import impl_load
                 try:
                     sim.load_program(op[1])
                     o = [[]]
+                    tainted = False
+                    if not sim.has_started:
+                        # a simulation that says it has not started IS a fresh simulation with this program
+                        fresh = ToySimulation(unified_memory_size=size)
+                        fresh.load_program(op[1])
+                        if T.obs_toy(sim, True) != T.obs_toy(fresh, True):
+                            d0 = T.first_diff(T.obs_toy(sim, True), T.obs_toy(fresh, True), "state")
+                            findings.append(("violation", f"TOY: has_started is False after this load but the state differs from a fresh simulation with the same program ({d0})"))
+                        cl.add("load-not-started")
+                    if steps:
+                        cl.add("load-after-steps")
                 except Exception as e:
                     o = [[TA.map_load_exc(e)]]
                     cl.add("failed-load")
+                    tainted = True
                 tk = TA.tokens_of(op[1])
                 mops.append([5, tk[1] if tk[0] == "ok" else []])
             else:
@@ -319,7 +363,7 @@ class LifecycleToy(Slice):
                     if T.obs_toy(sim, True) != before:
                         findings.append(("violation", "step/run on a finished TOY simulation changed the state"))
             it.append([o, T.obs_toy(sim, False)])
-        mt = T.norm_model_toy(model.call([10, [4096, [], 0, 1, [], []], mops]), getters=False)
+        mt = T.norm_model_toy(model.call([10, [size or 4096, [], 0, 1, [], []], mops]), getters=False)
         # the initial TOY state of a fresh simulation has no max_pc; align the first observation
         it2, mt2 = [], []
         for a, b in zip(it[1:], mt[1:]):
@@ -335,7 +379,7 @@ class LifecycleToy(Slice):
             cl.add("steps>=3")
         # direct: reload == fresh, run == steps
         loads = [op for op in case["ops"] if isinstance(op, list) and op[0] == 5]
-        a, b = ToySimulation(), ToySimulation()
+        a, b = ToySimulation(unified_memory_size=size), ToySimulation(unified_memory_size=size)
         try:
             for op in loads[:-1]:
                 try:
@@ -344,24 +388,33 @@ class LifecycleToy(Slice):
                     pass
             a.load_program(loads[-1][1])
             b.load_program(loads[-1][1])
-            if T.obs_toy(a, True) != T.obs_toy(b, True):
-                findings.append(("violation", "TOY: loading after earlier loads differs from a fresh load"))
-            n = 0
+        except Exception:
+            return findings[:3], cl
+        if T.obs_toy(a, True) != T.obs_toy(b, True):
+            findings.append(("violation", "TOY: loading after earlier loads differs from a fresh load"))
+        ea = eb = None
+        n = 0
+        try:
             while not a.is_done() and n < 2000:
                 a.step()
                 n += 1
+        except Exception as e:
+            ea = type(e).__name__
+            cl.add("run-faults")
+        try:
             b.run()
-            if T.obs_toy(a, True) != T.obs_toy(b, True):
-                findings.append(("violation", "TOY: run() differs from step() until done"))
-        except Exception:
-            pass
+        except Exception as e:
+            eb = type(e).__name__
+        if ea != eb or T.obs_toy(a, True) != T.obs_toy(b, True):
+            d0 = T.first_diff(T.obs_toy(a, True), T.obs_toy(b, True), "state")
+            findings.append(("violation", f"TOY: run() (ends with {eb}) differs from step() until done (ends with {ea}): {d0}"))
         return findings[:3], cl
 
     def nontrivial(self, classes):
         return "steps>=3" in classes
 
     def required_classes(self, tier):
-        return ["after-done", "failed-load", "steps>=3"]
+        return ["after-done", "failed-load", "steps>=3", "load-not-started", "load-after-steps", "run-faults"]
 
 
 def slices():
